@@ -229,6 +229,9 @@ type tableSpec struct {
 	// rows are struct VALUES (state.ServiceVirtualIP, state.FreeVirtualIP), not pointers: the table maps the key to
 	// the boxed value (the interface payload); fields are read from the unboxed datatype, there is no allocation fact
 	valueRow bool
+	// the id index is compound and is queried with one struct argument per component: the field of argument i that
+	// carries component i
+	idArgFields []string
 }
 
 var tables = map[string]*tableSpec{}
@@ -301,6 +304,13 @@ func init() {
 	addTable(&tableSpec{name: "free-virtual-ips", rowPkg: statePkg, rowType: "FreeVirtualIP", valueRow: true,
 		keyFields: []string{"IsCounter"}, keyLower: []bool{false},
 		indexes: map[string]indexSpec{"counter": {kind: "booleq", field: "IsCounter"}}})
+	// mesh-topology: id = (Upstream, Downstream) service names (ServiceNameIndex lower-cases; CE: the name is all of it)
+	addTable(&tableSpec{name: "mesh-topology", rowPkg: statePkg, rowType: "upstreamDownstream",
+		keyFields: []string{"Upstream.Name", "Downstream.Name"}, keyLower: []bool{true, true},
+		idArgFields: []string{"Name", "Name"},
+		indexes: map[string]indexSpec{
+			"upstream":   {kind: "multieq", fields: []string{"Upstream.Name"}, lowers: []bool{true}, argFields: []string{"Name"}},
+			"downstream": {kind: "multieq", fields: []string{"Downstream.Name"}, lowers: []bool{true}, argFields: []string{"Name"}}}})
 	addTable(&tableSpec{name: "feature-gate-policy", rowPkg: structsPkg, rowType: "FeatureGatePolicy", single: true})
 	addTable(&tableSpec{name: "feature-gate-status", rowPkg: structsPkg, rowType: "FeatureGateStatus", single: true})
 	addTable(&tableSpec{name: "sessions", rowPkg: structsPkg, rowType: "Session", keyField: "ID", lower: true,
@@ -696,6 +706,32 @@ func (f *Frame) multiArgs(st *State, e *ast.CallExpr, packed *Term, ix indexSpec
 	return want
 }
 
+// idArgsKey: the key of a compound id index queried with one struct argument per component
+func (f *Frame) idArgsKey(st *State, e *ast.CallExpr, packed *Term, t *tableSpec) *Term {
+	c := f.c
+	var parts []*Term
+	for i, af := range t.idArgFields {
+		v, at, ok := f.varArg(st, e, packed, 2, i)
+		if !ok {
+			f.fail(e, "compound id index of %s needs %d arguments", t.name, len(t.idArgFields))
+		}
+		if _, isStruct := types.Unalias(at).Underlying().(*types.Struct); !isStruct {
+			f.fail(e, "compound id index argument %d of %s is not a struct", i, t.name)
+		}
+		si := c.structInfo(at)
+		idx, has := si.byName[af]
+		if !has {
+			f.fail(e, "index argument of type %s has no field %s", at, af)
+		}
+		x := c.fieldGet(v, si, idx)
+		if i < len(t.keyLower) && t.keyLower[i] {
+			x = c.strLower(x)
+		}
+		parts = append(parts, x)
+	}
+	return c.tupleKey(parts)
+}
+
 // altKey: the key computed from an object of the table's alternative argument type.
 func (f *Frame) altKey(st *State, t *tableSpec, ref *Term, isPtr bool) *Term {
 	alt := &tableSpec{name: t.name, rowPkg: t.altPkg, rowType: t.altType}
@@ -805,7 +841,12 @@ func (f *Frame) memdbLookup(st *State, e *ast.CallExpr, args []*Term) (*Term, *T
 		if !ok {
 			f.fail(e, "First on id index without argument")
 		}
-		k := f.argKey(st, t, v, at, e)
+		var k *Term
+		if _, _, two := f.varArg(st, e, packed, 2, 1); two && len(t.idArgFields) > 0 {
+			k = f.idArgsKey(st, e, packed, t)
+		} else {
+			k = f.argKey(st, t, v, at, e)
+		}
 		f.lastKey = k
 		r := Select(f.tableArr(st, t), k)
 		f.rowWellFormed(st, t, k, r)
